@@ -108,6 +108,8 @@ where
     trait SpliceFn {
         fn read(&mut self) -> BoxFuture<'_, IoResult<usize>>;
         fn write(&mut self, more: bool) -> BoxFuture<'_, IoResult<usize>>;
+        // end of the source stream: pass it on by closing the sending direction of the destination
+        fn shutdown(&mut self) -> IoResult<()>;
     }
     type BoxSpliceFn = Box<dyn SpliceFn + Send>;
     struct NullFn;
@@ -116,6 +118,9 @@ where
             unreachable!()
         }
         fn write(&mut self, _more: bool) -> BoxFuture<'_, IoResult<usize>> {
+            unreachable!()
+        }
+        fn shutdown(&mut self) -> IoResult<()> {
             unreachable!()
         }
     }
@@ -136,6 +141,15 @@ where
             }
             fn write(&mut self, more: bool) -> BoxFuture<'_, IoResult<usize>> {
                 async_splice(&mut self.pipe.0, &self.dfd, self.bufsz, more).boxed()
+            }
+            fn shutdown(&mut self) -> IoResult<()> {
+                use nix::sys::socket::{shutdown, Shutdown};
+                use std::os::unix::prelude::AsRawFd;
+                match shutdown(self.dfd.as_raw_fd(), Shutdown::Write) {
+                    // the peer is already gone: nothing left to tell it
+                    Ok(()) | Err(nix::errno::Errno::ENOTCONN) => Ok(()),
+                    Err(e) => Err(std::io::Error::from_raw_os_error(e as i32)),
+                }
             }
         }
 
@@ -204,6 +218,12 @@ where
         s.shutdown()
             .await
             .with_context(|| format!("shutdown frame {})", dst.name))?;
+    }
+
+    if have_rawfd {
+        pipe_fn
+            .shutdown()
+            .with_context(|| format!("shutdown {})", dst.name))?;
     }
 
     Ok(())
